@@ -27,6 +27,8 @@ CHECKS = {
          "Lean 4 proof (non-interference over all schedules) + deterministic scheduler correspondence", "5/C07"),
  "C09": ("Lean: every clause (keys resolve, resolution idempotent with equal hash, equivalent spellings equal and equally hashed, print/resolve round trip of primitive types, check reflexive, check implies same kind/signedness/width over all ordered pairs) decided exhaustively by `decide +kernel` over the registry tables of numpy, pandas(+pyarrow), polars and pyspark regenerated from the engines of the working tree; intensional lemma for the numeric families at every bit width. Failing-input search evaluates the same clauses on the dump (concrete key / pair); sampled parametrised types",
          "Lean 4 proof by kernel evaluation over regenerated registry tables (translator tie) + sampled parameterisations", "5/C09"),
+ "C15": ("Lean theorems generic in the attribute vocabulary: update_column(s) keep every attribute the call does not name and set the named ones (rebuild_keeps / updateColumn_frame); set_index / reset_index carry every Index attribute both ways (levelOf_attrs, columnOf_attrs, reset_set_attrs); inverse laws select-all and remove-after-add; invalid requests are errors (no schema); any operation sequence leaves the dataframe-level attributes alone (applyAll_top); remove_columns and reset_index mirror df.drop / df.reset_index for an arbitrary component verdict (reset partial: not ordered, with a witness for the recorded region). Per-run obligations by `decide` over the tables regenerated from the source: every Column.__init__ parameter is a Column.properties key (pandas, polars); set_index/reset_index copy every Index.__init__ parameter. Differential: random operation sequences on real schemas carrying every attribute vs the model, frame conditions, inverse laws, verdict of the transformed schema on the transformed frame",
+         "Lean 4 proof (attribute-map model of the transformation methods) + translator (constructor / properties / keyword tables) + differential correspondence over operation sequences", "5/C15"),
 }
 NA = {}
 for i in range(1, 21):
